@@ -64,12 +64,13 @@ Qed.
 Lemma grow_other w x : forall cs qs,
   live (grow w x cs qs) = live w /\ fresh (grow w x cs qs) = fresh w /\
   cleared (grow w x cs qs) = cleared w /\ frames (grow w x cs qs) = frames w /\
-  npub (grow w x cs qs) = npub w /\ dead (grow w x cs qs) = dead w.
+  npub (grow w x cs qs) = npub w /\ dead (grow w x cs qs) = dead w /\
+  alive (grow w x cs qs) = alive w /\ stopped (grow w x cs qs) = stopped w.
 Proof.
   intros cs. revert w. induction cs as [|c cr IH]; intros w [|q qr]; cbn [grow]; try tauto.
   destruct (IH (set_queue w c (queue_of w c ++ repeat_ev x (q - qlen w c))) qr)
-    as (A & B & C & D & E & F).
-  rewrite A, B, C, D, E, F. cbn. tauto.
+    as (A & B & C & D & E & F & G & H).
+  rewrite A, B, C, D, E, F, G, H. cbn. tauto.
 Qed.
 
 Arguments grow : simpl never.
@@ -79,7 +80,7 @@ Lemma vstep_live w e :
   match e with
   | VSub l c n g b => live w ++ [LI l c n g b]
   | VUnsub c n l | VUnsubCb c n l => filter (fun i => negb ((i_l i =? l) && at_cn c n i)) (live w)
-  | VClear c => filter (fun i => negb (i_c i =? c)) (live w)
+  | VClear c | VStop c => filter (fun i => negb (i_c i =? c)) (live w)
   | _ => live w
   end.
 Proof.
@@ -99,7 +100,7 @@ Proof.
 Qed.
 
 Lemma vstep_cleared w e :
-  cleared (vstep w e) = match e with VClear c => c :: cleared w | _ => cleared w end.
+  cleared (vstep w e) = match e with VClear c | VStop c => c :: cleared w | _ => cleared w end.
 Proof.
   destruct e; cbn; try reflexivity.
   - destruct (aget p (frames w)); reflexivity.
@@ -120,7 +121,7 @@ Lemma vstep_frames w e :
   frames (vstep w e) =
   match e with
   | VBegin p c n a => aset p (FR c n a (map i_l (members w c n)) []) (frames w)
-  | VInv p l _ =>
+  | VInv p l _ _ =>
       match aget p (frames w) with
       | Some f => aset p (FR (f_c f) (f_n f) (f_args f) (f_snap f) (l :: f_seen f)) (frames w)
       | None => frames w
@@ -137,6 +138,29 @@ Qed.
 
 Lemma vstep_dead w e :
   dead (vstep w e) = match e with VDeadlock => true | _ => dead w end.
+Proof.
+  destruct e; cbn; try reflexivity.
+  - destruct (aget p (frames w)); reflexivity.
+  - destruct (qlen w c <? QCAP); reflexivity.
+  - apply grow_other.
+Qed.
+
+Lemma vstep_alive w e :
+  alive (vstep w e) =
+  match e with
+  | VStart c => c :: alive w
+  | VLoopEnd c => filter (fun x => negb (x =? c)) (alive w)
+  | _ => alive w
+  end.
+Proof.
+  destruct e; cbn; try reflexivity.
+  - destruct (aget p (frames w)); reflexivity.
+  - destruct (qlen w c <? QCAP); reflexivity.
+  - apply grow_other.
+Qed.
+
+Lemma vstep_stopped w e :
+  stopped (vstep w e) = match e with VStop c => c :: stopped w | _ => stopped w end.
 Proof.
   destruct e; cbn; try reflexivity.
   - destruct (aget p (frames w)); reflexivity.
@@ -216,6 +240,12 @@ Proof.
     repeat split; auto. intros q f Hq. destruct (Z.eq_dec q p) as [->|N].
     + rewrite aget_adel_same in Hq. discriminate.
     + rewrite aget_adel_other in Hq by exact N. eauto.
+  - (* VStop: clears the centre *)
+    repeat split; auto.
+    + intros i Hi. apply filter_In in Hi. apply I1. tauto.
+    + intros i Hi. apply filter_In in Hi. destruct Hi as [Hi Hc]. apply negb_true_iff in Hc.
+      cbn [zmem existsb]. unfold zmem in I2. rewrite (I2 i Hi), Hc. reflexivity.
+    + apply NoDup_map_filter. exact I4.
 Qed.
 
 Lemma VI_view0 : VI view0 /\ VInv4 view0.
@@ -292,6 +322,7 @@ Proof.
     + intros i Hi _. apply filter_In in Hi. tauto.
     + intros i Hi _. apply filter_In in Hi. tauto.
     + intros i Hi _. apply filter_In in Hi. tauto.
+    + intros i Hi _. apply filter_In in Hi. tauto.
 Qed.
 
 (* frames below b, other than p, are untouched *)
@@ -313,7 +344,7 @@ Lemma keep_trans b b' a c d : b <= b' -> keep b a c -> keep b' c d -> keep b a d
 Proof. intros L K1 K2 q Lq. rewrite K2 by lia. apply K1; assumption. Qed.
 
 Lemma keep_step w e : ok_ev w e = true ->
-  match e with VInv _ _ _ | VEnd _ => False | _ => True end -> keep (npub w) w (vstep w e).
+  match e with VInv _ _ _ _ | VEnd _ => False | _ => True end -> keep (npub w) w (vstep w e).
 Proof.
   intros OK NE q L. rewrite vstep_frames. destruct e; try reflexivity; try contradiction.
   unfold ok_ev in OK. apply andb_true_iff in OK. destruct OK as [_ OK].
@@ -321,16 +352,24 @@ Proof.
   apply aget_aset_other. lia.
 Qed.
 
-Definition Ext (w w' : view) : Prop := Mono w w' /\ keep (npub w) w w'.
+(* [Ext w w']: w' extends w the way a nested call can: ids and publication numbers grow, open
+   frames are left alone, and no loop goroutine comes or goes (so ownership is unchanged) *)
+Definition Ext (w w' : view) : Prop := Mono w w' /\ keep (npub w) w w' /\ alive w' = alive w.
 
 Lemma Ext_refl w : Ext w w.
-Proof. split; [apply Mono_refl | intros q _; reflexivity]. Qed.
+Proof. split; [apply Mono_refl | split; [intros q _; reflexivity | reflexivity]]. Qed.
 
 Lemma Ext_trans a b c : Ext a b -> Ext b c -> Ext a c.
 Proof.
-  intros [M1 K1] [M2 K2]. split; [eapply Mono_trans; eauto|].
-  eapply keep_trans; [apply (m_npub _ _ M1) | exact K1 | exact K2].
+  intros (M1 & K1 & A1) (M2 & K2 & A2). split; [eapply Mono_trans; eauto|]. split.
+  - eapply keep_trans; [apply (m_npub _ _ M1) | exact K1 | exact K2].
+  - congruence.
 Qed.
+
+Lemma owner_alive w w' c : alive w' = alive w -> owner w' c = owner w c.
+Proof. unfold owner, loop_alive. intros ->. reflexivity. Qed.
+Lemma loop_alive_alive w w' c : alive w' = alive w -> loop_alive w' c = loop_alive w c.
+Proof. unfold loop_alive. intros ->. reflexivity. Qed.
 
 (* ================================================================ Part B *)
 Definition WFa (s : st) : Prop :=
@@ -402,11 +441,14 @@ Qed.
 
 Lemma emit_ext e s :
   (dead (vw s) = false -> ok_ev (vw s) e = true) ->
-  match e with VInv _ _ _ | VEnd _ => False | _ => True end -> Ext (vw s) (vw (emit e s)).
+  match e with VInv _ _ _ _ | VEnd _ | VStart _ | VLoopEnd _ => False | _ => True end ->
+  Ext (vw s) (vw (emit e s)).
 Proof.
   intros OK NE. destruct (dead (vw s)) eqn:D; [rewrite emit_dead by exact D; apply Ext_refl|].
   rewrite emit_alive by exact D. cbn [vw]. specialize (OK eq_refl).
-  split; [apply Mono_step; exact OK | apply keep_step; assumption].
+  split; [apply Mono_step; exact OK|]. split.
+  - apply keep_step; [exact OK|]. destruct e; auto.
+  - rewrite vstep_alive. destruct e; try reflexivity; contradiction.
 Qed.
 
 Lemma ok_simple w e : dead w = false -> lastfull w = false ->
@@ -493,7 +535,8 @@ Qed.
 
 Lemma ext_gen e s s2 :
   vw s2 = vw s -> dead (vw s) = false -> ok_ev (vw s) e = true ->
-  match e with VInv _ _ _ | VEnd _ => False | _ => True end -> Ext (vw s) (vw (emit e s2)).
+  match e with VInv _ _ _ _ | VEnd _ | VStart _ | VLoopEnd _ => False | _ => True end ->
+  Ext (vw s) (vw (emit e s2)).
 Proof.
   intros Ev D OK NE. rewrite <- Ev. apply emit_ext; [|exact NE]. intros _. rewrite Ev. exact OK.
 Qed.
@@ -662,6 +705,30 @@ Proof.
   - apply ext_gen; auto.
 Qed.
 
+(* ---- Stop() of a run service: clears its centre *)
+Lemma do_stop_prog c : AProg (do_stop c).
+Proof.
+  intros s [G LF] D. unfold do_stop.
+  destruct (can_stop (vw s) c) eqn:CS; [|apply Prog_emit_simple; [exact I | split; assumption]].
+  assert (OK : ok_ev (vw s) (VStop c) = true) by (unfold ok_ev; rewrite D, LF; exact CS).
+  set (s2 := set_greg s (filter (fun x => negb (fst x =? c)) (greg s))).
+  split; [split|].
+  - apply (emit_good0_gen _ s); auto.
+    + intros c' n' H. apply has_g_live_iff in H. destruct H as [i [Hi [Hc Hg]]].
+      rewrite vstep_live in Hi. apply filter_In in Hi. destruct Hi as [Hi Hn].
+      subst s2. cbn [greg set_greg]. apply pair_mem_In. apply filter_In. split.
+      * apply pair_mem_In. apply (g_a _ G). apply has_g_live_iff. eauto.
+      * cbn [fst]. apply at_cn_iff in Hc. destruct Hc as [<- _]. exact Hn.
+    + intros c' n' H. subst s2. cbn [greg set_greg] in H. apply pair_mem_In in H. apply filter_In in H.
+      destruct H as [H Hn]. cbn [fst] in Hn. apply pair_mem_In in H.
+      destruct (g_b _ G c' n' H) as [H1 H2]. split; [exact H1|].
+      apply members_ne_iff in H2. destruct H2 as [i [Hi Hc]]. apply members_ne_iff. exists i.
+      split; [|exact Hc]. rewrite vstep_live. apply filter_In. split; [exact Hi|].
+      apply at_cn_iff in Hc. destruct Hc as [-> _]. exact Hn.
+  - apply lastfull_gen; auto.
+  - apply ext_gen; auto.
+Qed.
+
 (* ---- global publication *)
 Lemma gpub_ok_model s n k : Good0 s ->
   forall cs, gpub_ok (vw s) n k cs (map (gpub_len s n k) cs) = true.
@@ -732,18 +799,22 @@ Definition frame_add (f : frame) (l : Z) : frame :=
   FR (f_c f) (f_n f) (f_args f) (f_snap f) (l :: f_seen f).
 
 (* what invoking one listener inside publication p guarantees *)
-Definition InvokeSpec (inv : Z -> linfo -> list Z -> st -> st) : Prop :=
+(* [g] is the goroutine that runs the dispatch loop: it must own the centre of the publication *)
+Definition InvokeSpec (g : Z) (inv : Z -> linfo -> list Z -> st -> st) : Prop :=
   (forall p i a s, dead (vw s) = true -> inv p i a s = s) /\
   (forall p i s f, Good s -> dead (vw s) = false ->
      aget p (frames (vw s)) = Some f -> find_live (vw s) (i_l i) = Some i ->
      at_cn (f_c f) (f_n f) i = true -> zmem (i_l i) (f_seen f) = false ->
+     g = owner (vw s) (f_c f) ->
      Good (inv p i (f_args f) s) /\ Mono (vw s) (vw (inv p i (f_args f) s)) /\
      keepx p (npub (vw s)) (vw s) (vw (inv p i (f_args f) s)) /\
+     alive (vw (inv p i (f_args f) s)) = alive (vw s) /\
      (dead (vw (inv p i (f_args f) s)) = true \/
       aget p (frames (vw (inv p i (f_args f) s))) = Some (frame_add f (i_l i)))).
 
 (* loop invariant of the dispatch loop *)
-Record LInv (p c n : Z) (args snap todo : list Z) (s : st) : Prop := {
+Record LInv (g p c n : Z) (args snap todo : list Z) (s : st) : Prop := {
+  li_own : g = owner (vw s) c;
   li_frame : exists seen,
       aget p (frames (vw s)) = Some (FR c n args snap seen) /\
       (forall l, In l todo -> ~ In l seen) /\
@@ -767,8 +838,9 @@ Proof.
 Qed.
 
 Section LevelProofs.
+  Variable g : Z.
   Variable inv : Z -> linfo -> list Z -> st -> st.
-  Hypothesis Hinv : InvokeSpec inv.
+  Hypothesis Hinv : InvokeSpec g inv.
 
   Lemma visit_dead : forall k p c n args todo s,
     dead (vw s) = true -> visit inv k p c n args todo s = s.
@@ -787,20 +859,22 @@ Section LevelProofs.
   Qed.
 
   Lemma visit_spec p c n args snap : forall k todo s,
-    Good s -> (length todo <= k)%nat -> NoDup todo -> LInv p c n args snap todo s ->
+    Good s -> (length todo <= k)%nat -> NoDup todo -> LInv g p c n args snap todo s ->
     Good (visit inv k p c n args todo s) /\
     Mono (vw s) (vw (visit inv k p c n args todo s)) /\
     keepx p (npub (vw s)) (vw s) (vw (visit inv k p c n args todo s)) /\
+    alive (vw (visit inv k p c n args todo s)) = alive (vw s) /\
     (dead (vw (visit inv k p c n args todo s)) = true \/
-     LInv p c n args snap [] (visit inv k p c n args todo s)).
+     LInv g p c n args snap [] (visit inv k p c n args todo s)).
   Proof.
     induction k as [|k IH]; intros todo s G Len ND LI.
     - destruct todo; [|cbn in Len; lia]. cbn [visit].
-      split; [exact G|]. split; [apply Mono_refl|]. split; [intros q _ _; reflexivity|]. right. exact LI.
+      split; [exact G|]. split; [apply Mono_refl|]. split; [intros q _ _; reflexivity|].
+      split; [reflexivity|]. right. exact LI.
     - cbn [visit]. pose proof (pick_spec (hint p s) todo) as PS.
       destruct (pick (hint p s) todo) as [[l rest]|].
       2:{ subst todo. split; [exact G|]. split; [apply Mono_refl|].
-          split; [intros q _ _; reflexivity|]. right. exact LI. }
+          split; [intros q _ _; reflexivity|]. split; [reflexivity|]. right. exact LI. }
       destruct PS as [Hl ->].
       set (s1 := if running s c
                  then match find_live (vw s) l with
@@ -809,19 +883,21 @@ Section LevelProofs.
                       end
                  else s).
       assert (H1 : Good s1 /\ Mono (vw s) (vw s1) /\ keepx p (npub (vw s)) (vw s) (vw s1) /\
-                   (dead (vw s1) = true \/ LInv p c n args snap (remove_first l todo) s1)).
-      { destruct LI as [[seen [Fr [Ns Cv]]] Sub Fre At].
+                   alive (vw s1) = alive (vw s) /\
+                   (dead (vw s1) = true \/ LInv g p c n args snap (remove_first l todo) s1)).
+      { destruct LI as [Own [seen [Fr [Ns Cv]]] Sub Fre At].
         destruct (Good_VI s (proj1 G)) as [(V1 & V2 & V3) V4].
         assert (Skip : find_live (vw s) l = None ->
-                       LInv p c n args snap (remove_first l todo) s).
+                       LInv g p c n args snap (remove_first l todo) s).
         { intro FN. split; auto.
           - exists seen. split; [exact Fr|]. split.
             + intros x Hx. apply rf_in in Hx; [|exact ND]. apply Ns. tauto.
             + intros x Hx. destruct (Z.eq_dec x l) as [->|Nx]; [auto|].
               destruct (Cv x Hx) as [H|H]; [|auto]. left. apply rf_in; auto.
           - intros x Hx. apply rf_in in Hx; [|exact ND]. apply Sub. tauto. }
-        assert (Same : Good s /\ Mono (vw s) (vw s) /\ keepx p (npub (vw s)) (vw s) (vw s)).
-        { split; [exact G|]. split; [apply Mono_refl|]. intros q _ _. reflexivity. }
+        assert (Same : Good s /\ Mono (vw s) (vw s) /\ keepx p (npub (vw s)) (vw s) (vw s) /\
+                       alive (vw s) = alive (vw s)).
+        { split; [exact G|]. split; [apply Mono_refl|]. split; [|reflexivity]. intros q _ _. reflexivity. }
         subst s1. destruct (running s c) eqn:Run.
         - destruct (find_live (vw s) l) as [i|] eqn:F.
           + destruct (at_cn c n i) eqn:A.
@@ -832,11 +908,12 @@ Section LevelProofs.
               assert (Z0 : zmem (i_l i) seen = false).
               { destruct (zmem (i_l i) seen) eqn:Zm; [|reflexivity]. apply zmem_In in Zm.
                 exfalso. eapply Ns; eauto. }
-              specialize (Hi p i s (FR c n args snap seen) G D Fr F A Z0). cbn [f_args] in Hi.
-              destruct Hi as (G1 & M1 & K1 & Fin).
-              split; [exact G1|]. split; [exact M1|]. split; [exact K1|].
+              specialize (Hi p i s (FR c n args snap seen) G D Fr F A Z0 Own). cbn [f_args] in Hi.
+              destruct Hi as (G1 & M1 & K1 & A1 & Fin).
+              split; [exact G1|]. split; [exact M1|]. split; [exact K1|]. split; [exact A1|].
               destruct Fin as [Dd|Fr1]; [auto|]. right. unfold frame_add in Fr1. cbn in Fr1.
               split.
+              { rewrite (owner_alive _ _ _ A1). exact Own. }
               { exists (i_l i :: seen). split; [exact Fr1|]. split.
                 - intros x Hx. apply rf_in in Hx; [|exact ND]. intros [E|H]; [intuition congruence|].
                   eapply Ns; [|exact H]. tauto.
@@ -850,35 +927,40 @@ Section LevelProofs.
               { intros x j Hx Fj. eapply At; [exact Hx|]. eapply live_back; eauto. }
             * (* a listener of the snapshot is never at another centre/name *)
               exfalso. rewrite (At l i (Sub l Hl) F) in A. discriminate.
-          + destruct Same as (S1 & S2 & S3). auto 6.
+          + destruct Same as (S1 & S2 & S3 & S4). auto 7.
         - (* centre cleared: its listeners are gone *)
-          destruct Same as (S1 & S2 & S3).
-          split; [exact S1|]. split; [exact S2|]. split; [exact S3|]. right. apply Skip.
+          destruct Same as (S1 & S2 & S3 & S4).
+          split; [exact S1|]. split; [exact S2|]. split; [exact S3|]. split; [exact S4|]. right. apply Skip.
           destruct (find_live (vw s) l) as [i|] eqn:F; [|reflexivity]. exfalso.
           pose proof (At l i (Sub l Hl) F) as A. apply at_cn_iff in A. destruct A as [A _].
           apply find_live_In in F. destruct F as [Hin _]. specialize (V2 i Hin).
           unfold running in Run. apply negb_false_iff in Run. rewrite A in V2. congruence. }
-      destruct H1 as (G1 & M1 & K1 & Fin).
+      destruct H1 as (G1 & M1 & K1 & A1 & Fin).
       destruct Fin as [Dd|LI1].
-      + rewrite visit_dead by exact Dd. auto 6.
+      + rewrite visit_dead by exact Dd. auto 7.
       + assert (Len1 : (length (remove_first l todo) <= k)%nat)
           by (pose proof (rf_len l todo Hl); lia).
-        destruct (IH _ s1 G1 Len1 (rf_nodup l todo ND) LI1) as (G2 & M2 & K2 & Fin2).
+        destruct (IH _ s1 G1 Len1 (rf_nodup l todo ND) LI1) as (G2 & M2 & K2 & A2 & Fin2).
         split; [exact G2|]. split; [eapply Mono_trans; eauto|].
-        split; [|exact Fin2].
+        split; [|split; [congruence | exact Fin2]].
         eapply keepx_trans; [apply (m_npub _ _ M1) | exact K1 | exact K2].
   Qed.
 End LevelProofs.
 
-Section LevelProofs2.
-  Variable inv : Z -> linfo -> list Z -> st -> st.
-  Hypothesis Hinv : InvokeSpec inv.
+(* a program that may only be run by the goroutine owning centre c *)
+Definition OProg (g c : Z) (f : st -> st) : Prop :=
+  forall s, Good s -> g = owner (vw s) c -> Good (f s) /\ Ext (vw s) (vw (f s)).
 
-  Lemma dispatch_prog c n args : Prog (dispatch inv c n args).
+Section LevelProofs2.
+  Variable g : Z.
+  Variable inv : Z -> linfo -> list Z -> st -> st.
+  Hypothesis Hinv : InvokeSpec g inv.
+
+  Lemma dispatch_prog c n args : OProg g c (dispatch inv c n args).
   Proof.
-    intros s G. unfold dispatch.
+    intros s G Own. unfold dispatch.
     destruct (dead (vw s)) eqn:D.
-    { rewrite (emit_dead _ s) by exact D. rewrite visit_dead by (exact Hinv || exact D).
+    { rewrite (emit_dead _ s) by exact D. rewrite (visit_dead g) by (exact Hinv || exact D).
       rewrite emit_dead by exact D. split; [exact G | apply Ext_refl]. }
     set (p := npub (vw s)). set (snap := map i_l (members (vw s) c n)).
     set (s1 := emit (VBegin p c n args) s).
@@ -888,13 +970,15 @@ Section LevelProofs2.
     assert (G1 : Good s1) by (apply emit_good; auto; rewrite vstep_live; reflexivity).
     assert (E1 : vw s1 = vstep (vw s) (VBegin p c n args)) by (subst s1; rewrite emit_alive by exact D; reflexivity).
     assert (Lv1 : live (vw s1) = live (vw s)) by (rewrite E1, vstep_live; reflexivity).
+    assert (Al1 : alive (vw s1) = alive (vw s)) by (rewrite E1, vstep_alive; reflexivity).
     assert (M01 : Mono (vw s) (vw s1)) by (rewrite E1; apply Mono_step; exact OK1).
     assert (Np1 : npub (vw s1) = p + 1) by (rewrite E1, vstep_npub; reflexivity).
     assert (Fr1 : frames (vw s1) = aset p (FR c n args snap []) (frames (vw s)))
       by (rewrite E1, vstep_frames; reflexivity).
     assert (ND : NoDup snap) by (subst snap; unfold members; apply NoDup_map_filter; exact V4).
-    assert (LI1 : LInv p c n args snap snap s1).
+    assert (LI1 : LInv g p c n args snap snap s1).
     { split.
+      - rewrite (owner_alive _ _ _ Al1). exact Own.
       - exists []. split; [rewrite Fr1; apply aget_aset_same|]. split; [intros l _ []|]. intros l Hl. auto.
       - auto.
       - intros l Hl. subst snap. apply in_map_iff in Hl. destruct Hl as [i [<- Hi]].
@@ -903,33 +987,42 @@ Section LevelProofs2.
         unfold members in Hi. apply filter_In in Hi. destruct Hi as [Hi A].
         apply find_live_In in Fj. destruct Fj as [Hj E]. rewrite Lv1 in Hj.
         rewrite (NoDup_ids_inj _ j i V4 Hj Hi E). exact A. }
-    destruct (visit_spec inv Hinv p c n args snap (length snap) snap s1 G1 (le_n _) ND LI1)
-      as (G2 & M12 & K12 & Fin).
+    destruct (visit_spec g inv Hinv p c n args snap (length snap) snap s1 G1 (le_n _) ND LI1)
+      as (G2 & M12 & K12 & A12 & Fin).
     set (s2 := visit inv (length snap) p c n args snap s1) in *.
     assert (K02 : keep p (vw s) (vw s2)).
     { intros q Lq. rewrite K12 by lia. rewrite Fr1. apply aget_aset_other. lia. }
     destruct (dead (vw s2)) eqn:D2.
-    { rewrite emit_dead by exact D2. split; [exact G2|]. split; [eapply Mono_trans; eauto | exact K02]. }
+    { rewrite emit_dead by exact D2. split; [exact G2|]. split; [eapply Mono_trans; eauto|].
+      split; [exact K02 | congruence]. }
     destruct Fin as [Dd|LI2]; [congruence|].
-    destruct LI2 as [[seen [Fr2 [_ Cv]]] _ _ _].
+    destruct LI2 as [_ [seen [Fr2 [_ Cv]]] _ _ _].
     assert (OK2 : ok_ev (vw s2) (VEnd p) = true).
     { unfold ok_ev. rewrite D2, (proj2 G2). cbn [negb andb]. rewrite Fr2. cbn [f_snap f_seen].
       apply forallb_forall. intros l Hl. destruct (find_live (vw s2) l) eqn:F; [|reflexivity].
       destruct (Cv l Hl) as [[]|[H|H]]; [apply zmem_In; exact H | congruence]. }
     split.
     - apply emit_good; auto; try (rewrite vstep_live; reflexivity).
-    - rewrite emit_alive by exact D2. cbn [vw]. split.
+    - rewrite emit_alive by exact D2. cbn [vw]. split; [|split].
       + eapply Mono_trans; [exact M01|]. eapply Mono_trans; [exact M12|]. apply Mono_step. exact OK2.
       + intros q Lq. rewrite vstep_frames. rewrite aget_adel_other by (fold p in Lq; lia).
         apply K02. exact Lq.
+      + rewrite vstep_alive. congruence.
   Qed.
 
-  Lemma publish_prog c n args : Prog (publish inv c n args).
+  Lemma mine_spec s c : mine g s c = true -> g = owner (vw s) c.
+  Proof. unfold mine. apply Z.eqb_eq. Qed.
+
+  Lemma publish_prog c n args : Prog (publish g inv c n args).
   Proof.
     intros s G. unfold publish.
-    destruct (is_light c); [apply dispatch_prog; exact G|].
+    destruct (is_light c).
+    { destruct (mine g s c) eqn:Mi; [apply dispatch_prog; [exact G | apply mine_spec; exact Mi]|].
+      apply Prog_emit_simple; [exact I | exact G]. }
     destruct (is_local c); [|apply Prog_emit_simple; [exact I | exact G]].
-    destruct (zmem c (chanm s)); [|apply dispatch_prog; exact G].
+    destruct (zmem c (chanm s)).
+    2:{ destruct (mine g s c) eqn:Mi; [apply dispatch_prog; [exact G | apply mine_spec; exact Mi]|].
+        apply Prog_emit_simple; [exact I | exact G]. }
     destruct (dead (vw s)) eqn:D.
     { rewrite (emit_dead _ s) by exact D. destruct (lastfull (vw s)); [rewrite emit_dead by exact D|];
         (split; [exact G | apply Ext_refl]). }
@@ -948,20 +1041,24 @@ Section LevelProofs2.
     - eapply Ext_trans; [exact X1|]. apply emit_ext; auto.
   Qed.
 
-  Lemma exec_act_prog self a : Prog (exec_act inv self a).
+  Lemma exec_act_prog self a : Prog (exec_act g inv self a).
   Proof.
     intros s G. unfold exec_act. destruct (dead (vw s)) eqn:D; [split; [exact G | apply Ext_refl]|].
+    assert (Nop : Good (emit VNop s) /\ Ext (vw s) (vw (emit VNop s)))
+      by (apply Prog_emit_simple; [exact I | exact G]).
     destruct a.
-    - apply do_sub_prog; assumption.
-    - apply do_unsub_prog; assumption.
-    - destruct self; [apply do_unsub_prog; assumption | apply Prog_emit_simple; [exact I | exact G]].
-    - apply do_unsub_cb_prog; assumption.
-    - apply do_clear_prog; assumption.
+    - destruct (mine g s c); [apply do_sub_prog; assumption | exact Nop].
+    - destruct (mine g s c); [apply do_unsub_prog; assumption | exact Nop].
+    - destruct self as [i|]; [|exact Nop].
+      destruct (mine g s (i_c i)); [apply do_unsub_prog; assumption | exact Nop].
+    - destruct (mine g s c); [apply do_unsub_cb_prog; assumption | exact Nop].
+    - destruct (mine g s c); [apply do_clear_prog; assumption | exact Nop].
     - apply publish_prog; assumption.
     - apply do_gpub_prog; assumption.
+    - apply do_stop_prog; assumption.
   Qed.
 
-  Lemma run_prog_prog self acts : Prog (run_prog inv self acts).
+  Lemma run_prog_prog self acts : Prog (run_prog g inv self acts).
   Proof.
     unfold run_prog. induction acts as [|a r IH]; intros s G; cbn [fold_left].
     - split; [exact G | apply Ext_refl].
@@ -971,50 +1068,52 @@ Section LevelProofs2.
 End LevelProofs2.
 
 (* ---- induction over the nesting depth *)
-Lemma invoke_shape (body : linfo -> st -> st) :
+Lemma invoke_shape g (body : linfo -> st -> st) :
   (forall i, Prog (body i)) -> (forall i s, dead (vw s) = true -> body i s = s) ->
-  InvokeSpec (fun p i args s =>
-                emit (VRet (i_l i) true) (body i (emit (VInv p (i_l i) (i_bound i ++ args)) s))).
+  InvokeSpec g (fun p i args s =>
+                  emit (VRet (i_l i) true) (body i (emit (VInv p (i_l i) (i_bound i ++ args) g) s))).
 Proof.
   intros PB DB. split.
   - intros p i a s D. rewrite (emit_dead _ s) by exact D. rewrite DB by exact D. apply emit_dead. exact D.
-  - intros p i s f G D Fr F A Z0.
-    assert (OK : ok_ev (vw s) (VInv p (i_l i) (i_bound i ++ f_args f)) = true).
+  - intros p i s f G D Fr F A Z0 Own.
+    assert (OK : ok_ev (vw s) (VInv p (i_l i) (i_bound i ++ f_args f) g) = true).
     { unfold ok_ev. rewrite D, (proj2 G). cbn [negb andb]. rewrite Fr, F, A, Z0. cbn [negb andb].
-      apply zlist_eqb_spec. reflexivity. }
-    set (s1 := emit (VInv p (i_l i) (i_bound i ++ f_args f)) s).
+      apply andb_true_iff. split; [apply zlist_eqb_spec; reflexivity | apply Z.eqb_eq; exact Own]. }
+    set (s1 := emit (VInv p (i_l i) (i_bound i ++ f_args f) g) s).
     assert (G1 : Good s1) by (apply emit_good; auto; rewrite vstep_live; reflexivity).
-    assert (E1 : vw s1 = vstep (vw s) (VInv p (i_l i) (i_bound i ++ f_args f)))
+    assert (E1 : vw s1 = vstep (vw s) (VInv p (i_l i) (i_bound i ++ f_args f) g))
       by (subst s1; rewrite emit_alive by exact D; reflexivity).
     assert (Fr1 : frames (vw s1) = aset p (frame_add f (i_l i)) (frames (vw s)))
       by (rewrite E1, vstep_frames, Fr; reflexivity).
+    assert (Al1 : alive (vw s1) = alive (vw s)) by (rewrite E1, vstep_alive; reflexivity).
     assert (M1 : Mono (vw s) (vw s1)) by (rewrite E1; apply Mono_step; exact OK).
     assert (Np1 : npub (vw s1) = npub (vw s)) by (rewrite E1, vstep_npub; reflexivity).
-    destruct (PB i s1 G1) as [G2 [M2 K2]].
+    destruct (PB i s1 G1) as [G2 (M2 & K2 & A2)].
     set (s2 := body i s1) in *.
     assert (PR : Prog (emit (VRet (i_l i) true))) by (apply Prog_emit_simple; exact I).
-    destruct (PR s2 G2) as [G3 [M3 K3]].
+    destruct (PR s2 G2) as [G3 (M3 & K3 & A3)].
     destruct (Good_VI s (proj1 G)) as [(_ & _ & V3) _]. specialize (V3 p f Fr).
     pose proof (m_npub _ _ M2) as N2.
-    split; [exact G3|]. split; [eapply Mono_trans; [exact M1|]; eapply Mono_trans; eauto|]. split.
+    split; [exact G3|]. split; [eapply Mono_trans; [exact M1|]; eapply Mono_trans; eauto|]. split; [|split].
     + intros q Lq Nq. rewrite K3 by lia. rewrite K2 by lia. rewrite Fr1. apply aget_aset_other. exact Nq.
+    + congruence.
     + right. rewrite K3 by lia. rewrite K2 by lia. rewrite Fr1. apply aget_aset_same.
 Qed.
 
-Lemma run_prog_dead inv self acts s : dead (vw s) = true -> run_prog inv self acts s = s.
+Lemma run_prog_dead g inv self acts s : dead (vw s) = true -> run_prog g inv self acts s = s.
 Proof.
   intro D. induction acts as [|x r IHr]; [reflexivity|]. unfold run_prog. cbn [fold_left].
   unfold exec_act at 2. rewrite D. exact IHr.
 Qed.
 
-Lemma invoke_spec : forall d, InvokeSpec (invoke d).
+Lemma invoke_spec g : forall d, InvokeSpec g (invoke g d).
 Proof.
   induction d as [|d IH].
-  - apply (invoke_shape (fun _ s => s)).
+  - apply (invoke_shape g (fun _ s => s)).
     + intros i s G. split; [exact G | apply Ext_refl].
     + reflexivity.
-  - apply (invoke_shape (fun i s1 =>
-             if in_budget s1 then run_prog (invoke d) (Some i) (prog_of s1 (i_l i)) s1 else s1)).
+  - apply (invoke_shape g (fun i s1 =>
+             if in_budget s1 then run_prog g (invoke g d) (Some i) (prog_of s1 (i_l i)) s1 else s1)).
     + intros i s G. destruct (in_budget s); [apply run_prog_prog; [exact IH | exact G]|].
       split; [exact G | apply Ext_refl].
     + intros i s D. destruct (in_budget s); [apply run_prog_dead; exact D | reflexivity].
@@ -1031,19 +1130,87 @@ Proof.
   - rewrite Ev. exact LF.
 Qed.
 
-Lemma drain_prog : forall k c, Prog (drain k c).
+Lemma drv_owner w c : is_drv c = true -> owner w c = 0.
 Proof.
-  induction k as [|k IH]; intros c s G; cbn [drain]; [split; [exact G | apply Ext_refl]|].
+  intro H. unfold owner, loop_alive.
+  assert (E : is_svc c = false) by (unfold is_drv, is_svc in *; lia). rewrite E. reflexivity.
+Qed.
+
+Lemma loop_owner w c : loop_alive w c = true -> owner w c = c.
+Proof. unfold owner. intros ->. reflexivity. Qed.
+
+Lemma drain_prog : forall k c, is_drv c = true -> Prog (drain k c).
+Proof.
+  induction k as [|k IH]; intros c Dc s G; cbn [drain]; [split; [exact G | apply Ext_refl]|].
   destruct (queue_of (vw s) c) as [|[n a] r] eqn:Q; [split; [exact G | apply Ext_refl]|].
   destruct (dead (vw s)) eqn:D; [split; [exact G | apply Ext_refl]|].
   assert (OK : ok_ev (vw s) (VDeq c n a) = true).
   { unfold ok_ev. rewrite D, (proj2 G). cbn [negb andb]. rewrite Q, Z.eqb_refl. cbn [andb].
-    apply zlist_eqb_spec. reflexivity. }
+    assert (E : is_svc c = false) by (unfold is_drv, is_svc in *; lia). rewrite E. cbn [implb].
+    rewrite andb_true_r. apply zlist_eqb_spec. reflexivity. }
   assert (G1 : Good (emit (VDeq c n a) s)) by (apply emit_good; auto; rewrite vstep_live; reflexivity).
   assert (X1 : Ext (vw s) (vw (emit (VDeq c n a) s))) by (apply emit_ext; auto).
-  destruct (dispatch_prog (invoke DEPTH) (invoke_spec DEPTH) c n a _ G1) as [G2 X2].
-  destruct (IH c _ G2) as [G3 X3].
+  destruct (dispatch_prog 0 (invoke 0 DEPTH) (invoke_spec 0 DEPTH) c n a _ G1) as [G2 X2].
+  { symmetry. apply drv_owner. exact Dc. }
+  destruct (IH c Dc _ G2) as [G3 X3].
   split; [exact G3|]. eapply Ext_trans; [exact X1|]. eapply Ext_trans; eauto.
+Qed.
+
+(* ---- the loop of a run service *)
+Lemma noone_prefix_spec w c : forall q,
+  (noone_prefix w c q <= length q)%nat /\ forallb (noone w c) (firstn (noone_prefix w c q) q) = true.
+Proof.
+  induction q as [|x r [IH1 IH2]]; cbn [noone_prefix]; [split; [apply le_n | reflexivity]|].
+  destruct (noone w c x) eqn:N; cbn [length firstn forallb].
+  - split; [lia|]. rewrite N, IH2. reflexivity.
+  - split; [lia | reflexivity].
+Qed.
+
+(* what one turn of the loop needs and keeps: the loop goroutine exists *)
+Lemma loop_good : forall k c s,
+  Good s -> loop_alive (vw s) c = true ->
+  Good (loop k c s) /\ alive (vw (loop k c s)) = alive (vw s).
+Proof.
+  induction k as [|k IH]; intros c s G LA; cbn [loop]; [split; [exact G | reflexivity]|].
+  destruct (dead (vw s)) eqn:D; cbn [orb]; [split; [exact G | reflexivity]|].
+  destruct (zmem c (stopped (vw s))) eqn:St; [split; [exact G | reflexivity]|].
+  set (sk := noone_prefix (vw s) c (queue_of (vw s) c)).
+  set (s1 := match sk with O => s | S _ => emit (VSkip c (Z.of_nat sk)) s end).
+  assert (H1 : Good s1 /\ Ext (vw s) (vw s1) /\ stopped (vw s1) = stopped (vw s) /\ dead (vw s1) = false).
+  { subst s1. destruct sk as [|m] eqn:Esk; [split; [exact G|]; split; [apply Ext_refl | auto]|].
+    destruct (noone_prefix_spec (vw s) c (queue_of (vw s) c)) as [P1 P2]. fold sk in P1, P2.
+    rewrite Esk in P1, P2.
+    assert (OK : ok_ev (vw s) (VSkip c (Z.of_nat (S m))) = true).
+    { unfold ok_ev. rewrite D, (proj2 G). cbn [negb andb]. rewrite LA, St. cbn [negb andb].
+      rewrite Nat2Z.id, P2, andb_true_r. unfold qlen. lia. }
+    split; [apply emit_good; auto; rewrite vstep_live; reflexivity|].
+    split; [apply emit_ext; auto|].
+    rewrite emit_alive by exact D. cbn [vw]. rewrite vstep_stopped, vstep_dead. auto. }
+  destruct H1 as (G1 & (M1 & K1 & A1) & S1 & D1).
+  destruct (queue_of (vw s1) c) as [|[n a] r] eqn:Q; [split; [exact G1 | exact A1]|].
+  assert (LA1 : loop_alive (vw s1) c = true) by (rewrite (loop_alive_alive _ _ _ A1); exact LA).
+  assert (OK : ok_ev (vw s1) (VDeq c n a) = true).
+  { unfold ok_ev. rewrite D1, (proj2 G1). cbn [negb andb]. rewrite Q, Z.eqb_refl. cbn [andb].
+    rewrite LA1, S1, St. cbn [negb andb]. rewrite implb_true_r, andb_true_r. apply zlist_eqb_spec. reflexivity. }
+  assert (G2 : Good (emit (VDeq c n a) s1)) by (apply emit_good; auto; rewrite vstep_live; reflexivity).
+  assert (X2 : Ext (vw s1) (vw (emit (VDeq c n a) s1))) by (apply emit_ext; auto).
+  destruct X2 as (M2 & K2 & A2).
+  assert (LA2 : loop_alive (vw (emit (VDeq c n a) s1)) c = true)
+    by (rewrite (loop_alive_alive _ _ _ A2); exact LA1).
+  destruct (dispatch_prog c (invoke c DEPTH) (invoke_spec c DEPTH) c n a _ G2) as [G3 (M3 & K3 & A3)].
+  { symmetry. apply loop_owner. exact LA2. }
+  destruct (IH c _ G3) as [G4 A4].
+  { rewrite (loop_alive_alive _ _ _ A3). exact LA2. }
+  split; [exact G4 | congruence].
+Qed.
+
+Lemma run_loop_good c s : Good s -> loop_alive (vw s) c = true -> Good (run_loop c s).
+Proof.
+  intros G LA. unfold run_loop. destruct (loop_good LOOPFUEL c s G LA) as [G1 A1].
+  destruct (zmem c (stopped (vw (loop LOOPFUEL c s)))) eqn:St; [|exact G1].
+  apply emit_good; [exact G1 | | rewrite vstep_live; reflexivity | exact I].
+  intro D. unfold ok_ev. rewrite D, (proj2 G1). cbn [negb andb].
+  rewrite (loop_alive_alive _ _ _ A1), LA, St. reflexivity.
 Qed.
 
 Lemma Good_init g : Good (init g).
@@ -1112,12 +1279,33 @@ Proof.
   set (s' := set_guide s (resync (guide s))).
   assert (G' : Good s') by (apply (Good_same s); auto).
   assert (G0 : Good (emit VOp s')) by (apply Prog_emit_simple; [exact I | exact G']).
+  assert (Nop : Good (emit VNop (emit VOp s'))) by (apply Prog_emit_simple; [exact I | exact G0]).
   destruct o.
   - apply (Good_same (emit VOp s')); auto.
   - apply exec_act_prog; [apply invoke_spec | exact G0].
-  - destruct (is_local c); [apply drain_prog; exact G0 | apply Prog_emit_simple; [exact I | exact G0]].
-  - destruct (is_local c); [apply (drop_prog c _ _ G0) | apply Prog_emit_simple; [exact I | exact G0]].
-  - destruct (is_local c); [apply (Good_same (emit VOp s')); auto | apply Prog_emit_simple; [exact I | exact G0]].
+  - destruct (is_drv c) eqn:Dc; [apply drain_prog; [exact Dc | exact G0] | exact Nop].
+  - destruct (is_drv c); [apply (drop_prog c _ _ G0) | exact Nop].
+  - destruct (is_drv c); [apply (Good_same (emit VOp s')); auto | exact Nop].
+  - (* OStart *)
+    destruct (can_start (vw (emit VOp s')) c) eqn:CS; [|exact Nop].
+    destruct (dead (vw (emit VOp s'))) eqn:D.
+    { rewrite (emit_dead (VStart c)) by exact D. unfold run_loop.
+      assert (E : forall k, loop k c (emit VOp s') = emit VOp s')
+        by (destruct k; cbn [loop]; [reflexivity | rewrite D; reflexivity]).
+      rewrite E. destruct (zmem c (stopped (vw (emit VOp s')))); [rewrite emit_dead by exact D|]; exact G0. }
+    assert (OK : ok_ev (vw (emit VOp s')) (VStart c) = true)
+      by (unfold ok_ev; rewrite D, (proj2 G0); exact CS).
+    apply run_loop_good.
+    + apply emit_good; [exact G0 | auto | rewrite vstep_live; reflexivity | exact I].
+    + rewrite emit_alive by exact D. cbn [vw]. unfold loop_alive. rewrite vstep_alive.
+      unfold can_start in CS. repeat rewrite andb_true_iff in CS. destruct CS as [[CS _] _].
+      rewrite CS. cbn. rewrite Z.eqb_refl. reflexivity.
+  - (* ORun *)
+    destruct (loop_alive (vw (emit VOp s')) c) eqn:LA; [|exact Nop].
+    apply run_loop_good; assumption.
+  - (* OOwn *)
+    destruct (loop_alive (vw (emit VOp s')) c); [|exact Nop].
+    apply exec_act_prog; [apply invoke_spec | exact G0].
 Qed.
 
 Lemma final_good g ops : Good (final g ops).
@@ -1155,20 +1343,22 @@ Qed.
 
 (* 1. an invoked listener is subscribed at that moment, to the centre and name of the
       publication, has not yet been invoked by it, and gets bound ++ published args *)
-Lemma inv_current t pre p l fa post :
-  Holds t -> t = pre ++ VInv p l fa :: post ->
+Lemma inv_current t pre p l fa gr post :
+  Holds t -> t = pre ++ VInv p l fa gr :: post ->
   exists f i, aget p (frames (view_of pre)) = Some f /\ find_live (view_of pre) l = Some i /\
-              i_c i = f_c f /\ i_n i = f_n f /\ fa = i_bound i ++ f_args f /\ ~ In l (f_seen f).
+              i_c i = f_c f /\ i_n i = f_n f /\ fa = i_bound i ++ f_args f /\ ~ In l (f_seen f) /\
+              gr = owner (view_of pre) (i_c i).
 Proof.
   intros H E. destruct (Holds_at _ _ _ _ H E) as (_ & OK & _).
   unfold ok_ev in OK. destruct (dead (view_of pre)); [discriminate|].
   destruct (lastfull (view_of pre)); [discriminate|]. cbn [negb andb] in OK.
   destruct (aget p (frames (view_of pre))) as [f|]; [|discriminate].
   destruct (find_live (view_of pre) l) as [i|]; [|discriminate].
-  repeat rewrite andb_true_iff in OK. destruct OK as [[A B] C].
-  apply at_cn_iff in A. apply zlist_eqb_spec in C. apply negb_true_iff in B.
+  repeat rewrite andb_true_iff in OK. destruct OK as [[[A B] C] O].
+  apply at_cn_iff in A. apply zlist_eqb_spec in C. apply negb_true_iff in B. apply Z.eqb_eq in O.
   exists f, i. repeat split; try tauto.
-  intro Hin. apply zmem_In in Hin. congruence.
+  - intro Hin. apply zmem_In in Hin. congruence.
+  - destruct A as [A _]. rewrite A. exact O.
 Qed.
 
 (* 2. the frame of an open publication records exactly what happened since its VBegin *)
@@ -1177,12 +1367,12 @@ Lemma frame_track t1 p c n a : forall t2,
   p < npub (view_of (t1 ++ VBegin p c n a :: t2)) /\
   forall f, aget p (frames (view_of (t1 ++ VBegin p c n a :: t2))) = Some f ->
     f_c f = c /\ f_n f = n /\ f_args f = a /\ f_snap f = map i_l (members (view_of t1) c n) /\
-    (forall l, In l (f_seen f) <-> exists fa, In (VInv p l fa) t2) /\ ~ In (VEnd p) t2.
+    (forall l, In l (f_seen f) <-> exists fa gr, In (VInv p l fa gr) t2) /\ ~ In (VEnd p) t2.
 Proof.
   induction t2 as [|e t2 IH] using rev_ind; intro H.
   - change (t1 ++ [VBegin p c n a]) with (t1 ++ [VBegin p c n a]) in *. rewrite view_of_snoc.
     split; [rewrite vstep_npub; lia|]. intros f Hf. rewrite vstep_frames, aget_aset_same in Hf. inv Hf.
-    cbn. repeat split; auto; try tauto. intros [fa []].
+    cbn. repeat split; auto; try tauto. intros [fa [gr []]].
   - assert (E : t1 ++ VBegin p c n a :: t2 ++ [e] = (t1 ++ VBegin p c n a :: t2) ++ [e])
       by (rewrite <- app_assoc; reflexivity).
     rewrite E in *. apply Holds_snoc in H. destruct H as [H1 OK]. destruct (IH H1) as [Lp IHf]. clear IH.
@@ -1190,14 +1380,14 @@ Proof.
     split; [pose proof (m_npub _ _ (Mono_step w e OK)); lia|].
     intros f Hf. rewrite vstep_frames in Hf.
     assert (Keep : aget p (frames w) = Some f ->
-                   (forall l fa, e <> VInv p l fa) -> e <> VEnd p ->
+                   (forall l fa gr, e <> VInv p l fa gr) -> e <> VEnd p ->
                    f_c f = c /\ f_n f = n /\ f_args f = a /\ f_snap f = map i_l (members (view_of t1) c n) /\
-                   (forall l, In l (f_seen f) <-> exists fa, In (VInv p l fa) (t2 ++ [e])) /\
+                   (forall l, In l (f_seen f) <-> exists fa gr, In (VInv p l fa gr) (t2 ++ [e])) /\
                    ~ In (VEnd p) (t2 ++ [e])).
     { intros Hf0 N1 N2. destruct (IHf f Hf0) as (A & B & C & D & S & Nend).
       repeat split; auto.
-      - intro Hl. apply S in Hl. destruct Hl as [fa Hfa]. exists fa. apply in_app_iff. auto.
-      - intros [fa Hfa]. apply in_app_iff in Hfa. destruct Hfa as [Hfa|[Hfa|[]]]; [apply S; eauto|].
+      - intro Hl. apply S in Hl. destruct Hl as [fa [gr Hfa]]. exists fa, gr. apply in_app_iff. auto.
+      - intros [fa [gr Hfa]]. apply in_app_iff in Hfa. destruct Hfa as [Hfa|[Hfa|[]]]; [apply S; eauto|].
         exfalso. eapply N1. eauto.
       - intro Hin. apply in_app_iff in Hin. destruct Hin as [Hin|[Hin|[]]]; [tauto | congruence]. }
     unfold ok_ev in OK. destruct (dead w); [discriminate|]. cbn [negb andb] in OK.
@@ -1211,15 +1401,15 @@ Proof.
       * destruct (aget p (frames w)) as [f0|] eqn:F0; [|congruence].
         rewrite aget_aset_same in Hf. inv Hf. destruct (IHf f0 eq_refl) as (A & B & C & D & S & Nend).
         cbn. repeat split; auto.
-        -- intros [<-|Hl]; [exists args; apply in_app_iff; cbn; auto|].
-           apply S in Hl. destruct Hl as [fa Hfa]. exists fa. apply in_app_iff. auto.
-        -- intros [fa Hfa]. apply in_app_iff in Hfa. destruct Hfa as [Hfa|[Hfa|[]]].
+        -- intros [<-|Hl]; [exists args, g; apply in_app_iff; cbn; auto|].
+           apply S in Hl. destruct Hl as [fa [gr Hfa]]. exists fa, gr. apply in_app_iff. auto.
+        -- intros [fa [gr Hfa]]. apply in_app_iff in Hfa. destruct Hfa as [Hfa|[Hfa|[]]].
            ++ right. apply S. eauto.
            ++ inv Hfa. auto.
         -- intro Hin. apply in_app_iff in Hin. destruct Hin as [Hin|[Hin|[]]]; [tauto | discriminate].
       * assert (Hf0 : aget p (frames w) = Some f).
         { destruct (aget p0 (frames w)); [rewrite aget_aset_other in Hf by auto|]; exact Hf. }
-        apply Keep; [exact Hf0 | intros l0 fa0 E0; inv E0; tauto | discriminate].
+        apply Keep; [exact Hf0 | intros l0 fa0 gr0 E0; inv E0; tauto | discriminate].
     + (* VEnd *)
       destruct (Z.eq_dec p0 p) as [->|Np]; [rewrite aget_adel_same in Hf; discriminate|].
       rewrite aget_adel_other in Hf by auto.
@@ -1250,17 +1440,17 @@ Proof.
       rewrite aget_adel_other in Hf by auto. auto.
 Qed.
 
-Theorem at_most_once t t1 p l a1 t2 a2 t3 :
-  Holds t -> t = t1 ++ VInv p l a1 :: t2 ++ VInv p l a2 :: t3 -> False.
+Theorem at_most_once t t1 p l a1 g1 t2 a2 g2 t3 :
+  Holds t -> t = t1 ++ VInv p l a1 g1 :: t2 ++ VInv p l a2 g2 :: t3 -> False.
 Proof.
   intros H E.
-  destruct (inv_current t t1 p l a1 (t2 ++ VInv p l a2 :: t3) H E) as (f & i & Fr & _).
-  assert (E2 : t = ((t1 ++ [VInv p l a1]) ++ t2) ++ VInv p l a2 :: t3)
+  destruct (inv_current t t1 p l a1 g1 (t2 ++ VInv p l a2 g2 :: t3) H E) as (f & i & Fr & _).
+  assert (E2 : t = ((t1 ++ [VInv p l a1 g1]) ++ t2) ++ VInv p l a2 g2 :: t3)
     by (rewrite E, <- !app_assoc; reflexivity).
-  destruct (inv_current t _ p l a2 t3 H E2) as (f2 & i2 & Fr2 & _ & _ & _ & _ & Ns).
+  destruct (inv_current t _ p l a2 g2 t3 H E2) as (f2 & i2 & Fr2 & _ & _ & _ & _ & Ns & _).
   apply Ns. destruct (Holds_at _ _ _ _ H E2) as (Hp & _ & _).
   destruct (Holds_VI _ (Holds_prefix _ _ (Holds_prefix _ _ Hp))) as [(_ & _ & V3) _].
-  eapply (seen_persist (t1 ++ [VInv p l a1]) p l t2 Hp); [| |exact Fr2].
+  eapply (seen_persist (t1 ++ [VInv p l a1 g1]) p l t2 Hp); [| |exact Fr2].
   - rewrite view_of_snoc, vstep_npub. eapply V3. exact Fr.
   - intros f0 Hf0. rewrite view_of_snoc, vstep_frames, Fr, aget_aset_same in Hf0. inv Hf0. cbn. auto.
 Qed.
@@ -1270,7 +1460,7 @@ Theorem at_least_once t t1 p c n a t2 t3 :
   Holds t -> t = t1 ++ VBegin p c n a :: t2 ++ VEnd p :: t3 ->
   forall i, In i (members (view_of t1) c n) ->
             find_live (view_of (t1 ++ VBegin p c n a :: t2)) (i_l i) <> None ->
-            exists fa, In (VInv p (i_l i) fa) t2.
+            exists fa gr, In (VInv p (i_l i) fa gr) t2.
 Proof.
   intros H E i Hi Lv.
   assert (E2 : t = (t1 ++ VBegin p c n a :: t2) ++ VEnd p :: t3)
@@ -1288,15 +1478,15 @@ Qed.
 
 (* 2'. every invocation between VBegin p c n a and the end of p is of a current subscriber of
        (c, n) and passes its bound arguments followed by a *)
-Theorem inv_in_pub t t1 p c n a t2 l fa t3 :
-  Holds t -> t = t1 ++ VBegin p c n a :: t2 ++ VInv p l fa :: t3 ->
+Theorem inv_in_pub t t1 p c n a t2 l fa gr t3 :
+  Holds t -> t = t1 ++ VBegin p c n a :: t2 ++ VInv p l fa gr :: t3 ->
   exists i, find_live (view_of (t1 ++ VBegin p c n a :: t2)) l = Some i /\
             i_c i = c /\ i_n i = n /\ fa = i_bound i ++ a.
 Proof.
   intros H E.
-  assert (E2 : t = (t1 ++ VBegin p c n a :: t2) ++ VInv p l fa :: t3)
+  assert (E2 : t = (t1 ++ VBegin p c n a :: t2) ++ VInv p l fa gr :: t3)
     by (rewrite E, <- app_assoc; reflexivity).
-  destruct (inv_current _ _ _ _ _ _ H E2) as (f & i & Fr & Fl & A & B & C & _).
+  destruct (inv_current _ _ _ _ _ _ _ H E2) as (f & i & Fr & Fl & A & B & C & _).
   destruct (Holds_at _ _ _ _ H E2) as (Hp & _ & _).
   destruct (frame_track t1 p c n a t2 Hp) as [_ FT]. destruct (FT f Fr) as (Fc & Fn & Fa & _).
   exists i. split; [exact Fl|]. split; [congruence|]. split; [congruence|].
@@ -1325,25 +1515,25 @@ Lemma gone_stays t0 l t2 :
   find_live (view_of (t0 ++ t2)) l = None.
 Proof. intros H L F. eapply not_live_stable; eauto. apply Mono_trace. exact H. Qed.
 
-Theorem removed_never_again t t1 e t2 p l fa t3 c n g b :
-  Holds t -> t = t1 ++ e :: t2 ++ VInv p l fa :: t3 ->
+Theorem removed_never_again t t1 e t2 p l fa gr t3 c n g b :
+  Holds t -> t = t1 ++ e :: t2 ++ VInv p l fa gr :: t3 ->
   In (VSub l c n g b) t1 ->
-  (e = VUnsub c n l \/ e = VUnsubCb c n l \/ e = VClear c) -> False.
+  (e = VUnsub c n l \/ e = VUnsubCb c n l \/ e = VClear c \/ e = VStop c) -> False.
 Proof.
   intros H E Hs He.
-  assert (E2 : t = ((t1 ++ [e]) ++ t2) ++ VInv p l fa :: t3) by (rewrite E, <- !app_assoc; reflexivity).
-  destruct (inv_current _ _ _ _ _ _ H E2) as (f & i & _ & Fl & _).
+  assert (E2 : t = ((t1 ++ [e]) ++ t2) ++ VInv p l fa gr :: t3) by (rewrite E, <- !app_assoc; reflexivity).
+  destruct (inv_current _ _ _ _ _ _ _ H E2) as (f & i & _ & Fl & _).
   destruct (Holds_at _ _ _ _ H E2) as (Hp & _ & _).
   apply in_split in Hs. destruct Hs as [a [r Et1]].
   assert (H1 : Holds (a ++ VSub l c n g b :: r)) by (rewrite <- Et1; eapply Holds_prefix, Holds_prefix; exact Hp).
   destruct (sub_info a l c n g b r H1) as [Lf Uq]. rewrite <- Et1 in Lf, Uq.
   assert (G0 : find_live (view_of (t1 ++ [e])) l = None).
   { apply find_live_None. intros j Hj Ej. rewrite view_of_snoc, vstep_live in Hj.
-    destruct He as [->|[->| ->]]; apply filter_In in Hj; destruct Hj as [Hj Hn];
+    destruct He as [->|[->|[->| ->]]]; apply filter_In in Hj; destruct Hj as [Hj Hn];
       rewrite (Uq j Hj Ej) in Hn; cbn in Hn; unfold at_cn in Hn; cbn in Hn;
       rewrite ?Z.eqb_refl in Hn; discriminate. }
   assert (L1 : l < fresh (view_of (t1 ++ [e]))).
-  { rewrite view_of_snoc, vstep_fresh. destruct He as [->|[->| ->]]; exact Lf. }
+  { rewrite view_of_snoc, vstep_fresh. destruct He as [->|[->|[->| ->]]]; exact Lf. }
   rewrite (gone_stays _ _ _ Hp L1 G0) in Fl. discriminate.
 Qed.
 
@@ -1355,17 +1545,18 @@ Proof.
   - rewrite app_nil_r. exact Z0.
   - rewrite app_assoc in *. apply Holds_snoc in H. destruct H as [H1 _].
     rewrite view_of_snoc, vstep_cleared. specialize (IH H1 Z0).
-    destruct e; auto. unfold zmem in *. cbn [existsb]. rewrite IH. apply orb_true_r.
+    destruct e; auto; unfold zmem in *; cbn [existsb]; rewrite IH; apply orb_true_r.
 Qed.
 
-Theorem no_sub_after_clear t t1 c t2 l n g b t3 :
-  Holds t -> t = t1 ++ VClear c :: t2 ++ VSub l c n g b :: t3 -> False.
+Theorem no_sub_after_clear t t1 e c t2 l n g b t3 :
+  Holds t -> t = t1 ++ e :: t2 ++ VSub l c n g b :: t3 -> (e = VClear c \/ e = VStop c) -> False.
 Proof.
-  intros H E.
-  assert (E2 : t = ((t1 ++ [VClear c]) ++ t2) ++ VSub l c n g b :: t3) by (rewrite E, <- !app_assoc; reflexivity).
+  intros H E He.
+  assert (E2 : t = ((t1 ++ [e]) ++ t2) ++ VSub l c n g b :: t3) by (rewrite E, <- !app_assoc; reflexivity).
   destruct (Holds_at _ _ _ _ H E2) as (Hp & OK & _).
-  assert (Z0 : zmem c (cleared (view_of ((t1 ++ [VClear c]) ++ t2))) = true).
-  { apply cleared_stays; [exact Hp|]. rewrite view_of_snoc, vstep_cleared. cbn. rewrite Z.eqb_refl. reflexivity. }
+  assert (Z0 : zmem c (cleared (view_of ((t1 ++ [e]) ++ t2))) = true).
+  { apply cleared_stays; [exact Hp|]. rewrite view_of_snoc, vstep_cleared.
+    destruct He as [-> | ->]; cbn; rewrite Z.eqb_refl; reflexivity. }
   unfold ok_ev in OK. destruct (dead _); [discriminate|]. destruct (lastfull _); [discriminate|].
   rewrite Z0 in OK. cbn in OK. rewrite andb_false_r in OK. discriminate.
 Qed.
@@ -1396,6 +1587,7 @@ Proof.
   unfold ok_ev in OK. destruct (dead (view_of pre)); [discriminate|].
   destruct (lastfull (view_of pre)); [discriminate|]. cbn [negb andb] in OK.
   destruct (queue_of (view_of pre) c) as [|[n' a'] r] eqn:Q; [discriminate|].
+  apply andb_true_iff in OK. destruct OK as [OK _].
   apply andb_true_iff in OK. destruct OK as [A B]. apply Z.eqb_eq in A. apply zlist_eqb_spec in B. subst.
   exists r. split; [reflexivity|]. rewrite view_of_snoc. unfold vstep, vstep0, queue_of. cbn.
   rewrite aget_aset_same. unfold queue_of in Q. rewrite Q. reflexivity.
@@ -1511,6 +1703,160 @@ Proof.
   rewrite OK at 1. symmetry. apply firstn_skipn.
 Qed.
 
+(* 8. run services: who owns a centre, and what Stop() means *)
+Lemma alive_snoc t e c :
+  In c (alive (view_of (t ++ [e]))) <->
+  (e = VStart c \/ (In c (alive (view_of t)) /\ e <> VLoopEnd c)).
+Proof.
+  rewrite view_of_snoc, vstep_alive.
+  destruct e;
+    try (split; [intro H; right; split; [exact H | discriminate] | intros [H|[H _]]; [discriminate | exact H]]).
+  - cbn [In]. split.
+    + intros [->|H]; [left; reflexivity | right; split; [exact H | discriminate]].
+    + intros [H|[H _]]; [inv H; left; reflexivity | right; exact H].
+  - rewrite filter_In. split.
+    + intros [H N]. right. split; [exact H|]. intro E. inv E. rewrite Z.eqb_refl in N. discriminate.
+    + intros [H|[H N]]; [discriminate|]. split; [exact H|].
+      destruct (Z.eqb_spec c c0); [subst; exfalso; apply N; reflexivity | reflexivity].
+Qed.
+
+(* the loop goroutine of c exists exactly from Start() until it has ended *)
+Lemma alive_iff c : forall t,
+  In c (alive (view_of t)) <-> exists t1 t2, t = t1 ++ VStart c :: t2 /\ ~ In (VLoopEnd c) t2.
+Proof.
+  induction t as [|e t IH] using rev_ind.
+  - cbn. split; [tauto|]. intros (t1 & t2 & E & _). destruct t1; discriminate.
+  - rewrite alive_snoc. split.
+    + intros [->|[H N]].
+      * exists t, []. split; [reflexivity | intros []].
+      * apply IH in H. destruct H as (t1 & t2 & -> & Ne). exists t1, (t2 ++ [e]).
+        split; [rewrite <- app_assoc; reflexivity|]. intro Hin. apply in_app_iff in Hin.
+        destruct Hin as [Hin|[Hin|[]]]; [tauto | congruence].
+    + intros (t1 & t2 & E & Ne). apply app_snoc_inv in E.
+      destruct E as [(-> & -> & ->) | (t2' & -> & ->)]; [left; reflexivity|].
+      right. split.
+      * apply IH. exists t1, t2'. split; [reflexivity|]. intro Hin. apply Ne. apply in_app_iff. auto.
+      * intros ->. apply Ne. apply in_app_iff. cbn. auto.
+Qed.
+
+Lemma stopped_iff c : forall t, In c (stopped (view_of t)) <-> In (VStop c) t.
+Proof.
+  induction t as [|e t IH] using rev_ind; [cbn; tauto|].
+  rewrite view_of_snoc, vstep_stopped, in_app_iff. cbn [In].
+  destruct e; try (rewrite IH; split; [tauto | intros [H|[H|[]]]; [exact H | discriminate]]).
+  cbn [In]. rewrite IH. split.
+  - intros [->|H]; auto.
+  - intros [H|[H|[]]]; [auto | inv H; auto].
+Qed.
+
+Theorem owner_char t c :
+  let P := is_svc c = true /\ exists t1 t2, t = t1 ++ VStart c :: t2 /\ ~ In (VLoopEnd c) t2 in
+  (owner (view_of t) c = c /\ P) \/ (owner (view_of t) c = 0 /\ ~ P).
+Proof.
+  intro P. subst P. unfold owner, loop_alive. destruct (is_svc c) eqn:S; cbn [andb].
+  - destruct (zmem c (alive (view_of t))) eqn:Z0.
+    + left. split; [reflexivity|]. split; [reflexivity|]. apply alive_iff. apply zmem_In. exact Z0.
+    + right. split; [reflexivity|]. intros [_ H]. apply alive_iff in H. apply zmem_In in H. congruence.
+  - right. split; [reflexivity|]. intros [H _]. discriminate.
+Qed.
+
+Theorem inv_owner t pre p l fa gr post :
+  Holds t -> t = pre ++ VInv p l fa gr :: post ->
+  exists i, find_live (view_of pre) l = Some i /\ gr = owner (view_of pre) (i_c i).
+Proof.
+  intros H E. destruct (inv_current _ _ _ _ _ _ _ H E) as (f & i & _ & Fl & _ & _ & _ & _ & O). eauto.
+Qed.
+
+Lemma can_stop_svc w c : can_stop w c = true -> is_svc c = true.
+Proof. unfold can_stop, loop_alive. intro H. repeat rewrite andb_true_iff in H. tauto. Qed.
+
+(* after Stop(): nothing is received from the queue any more, nobody can subscribe, the
+   service is neither stopped nor started again (its listeners: [removed_never_again]) *)
+Theorem stop_final t t1 c t2 e t3 :
+  Holds t -> t = t1 ++ VStop c :: t2 ++ e :: t3 ->
+  match e with
+  | VDeq c' _ _ | VSkip c' _ | VStop c' | VStart c' | VSub _ c' _ _ _ => c' <> c
+  | _ => True
+  end.
+Proof.
+  intros H E.
+  destruct (Holds_at _ _ _ _ H E) as (_ & OKs & _).
+  assert (Sv : is_svc c = true).
+  { unfold ok_ev in OKs. destruct (dead (view_of t1)); [discriminate|].
+    destruct (lastfull (view_of t1)); [discriminate|]. apply can_stop_svc in OKs. exact OKs. }
+  assert (E2 : t = ((t1 ++ [VStop c]) ++ t2) ++ e :: t3) by (rewrite E, <- !app_assoc; reflexivity).
+  destruct (Holds_at _ _ _ _ H E2) as (Hp & OK & _).
+  set (w := view_of ((t1 ++ [VStop c]) ++ t2)) in *.
+  assert (St : zmem c (stopped w) = true).
+  { apply zmem_In. apply stopped_iff. apply in_app_iff. left. apply in_app_iff. cbn. auto. }
+  assert (Cl : zmem c (cleared w) = true).
+  { apply cleared_stays; [exact Hp|]. rewrite view_of_snoc, vstep_cleared. cbn. rewrite Z.eqb_refl. reflexivity. }
+  unfold ok_ev in OK. destruct (dead w); [discriminate|]. destruct (lastfull w); [destruct e; auto; discriminate|].
+  cbn [negb andb] in OK. destruct e; auto; intros ->.
+  - rewrite Cl in OK. cbn in OK. rewrite andb_false_r in OK. discriminate.
+  - rewrite Sv, St in OK. cbn in OK. rewrite !andb_false_r in OK. discriminate.
+  - unfold can_start in OK. rewrite St in OK. cbn in OK. rewrite andb_false_r in OK. discriminate.
+  - unfold can_stop in OK. rewrite St in OK. cbn in OK. rewrite andb_false_r in OK. discriminate.
+  - rewrite St in OK. cbn in OK. rewrite andb_false_r in OK. discriminate.
+Qed.
+
+(* the queue of a run service is received from by its loop only, before Stop() *)
+Theorem deq_by_loop t pre c n a post :
+  Holds t -> t = pre ++ VDeq c n a :: post -> is_svc c = true ->
+  loop_alive (view_of pre) c = true /\ ~ In (VStop c) pre.
+Proof.
+  intros H E Sv. destruct (Holds_at _ _ _ _ H E) as (_ & OK & _).
+  unfold ok_ev in OK. destruct (dead (view_of pre)); [discriminate|].
+  destruct (lastfull (view_of pre)); [discriminate|]. cbn [negb andb] in OK.
+  apply andb_true_iff in OK. destruct OK as [_ OK]. rewrite Sv in OK. cbn [implb] in OK.
+  apply andb_true_iff in OK. destruct OK as [A B]. split; [exact A|].
+  intro Hin. apply stopped_iff in Hin. apply zmem_In in Hin. rewrite Hin in B. discriminate.
+Qed.
+
+(* events the loop handled without invoking anybody had no listener *)
+Theorem skip_noone t pre c k post :
+  Holds t -> t = pre ++ VSkip c k :: post ->
+  0 < k <= qlen (view_of pre) c /\ loop_alive (view_of pre) c = true /\ ~ In (VStop c) pre /\
+  (forall x, In x (firstn (Z.to_nat k) (queue_of (view_of pre) c)) ->
+             members (view_of pre) c (fst x) = []) /\
+  queue_of (view_of (pre ++ [VSkip c k])) c = skipn (Z.to_nat k) (queue_of (view_of pre) c).
+Proof.
+  intros H E. destruct (Holds_at _ _ _ _ H E) as (_ & OK & _).
+  unfold ok_ev in OK. destruct (dead (view_of pre)); [discriminate|].
+  destruct (lastfull (view_of pre)); [discriminate|]. cbn [negb andb] in OK.
+  repeat rewrite andb_true_iff in OK. destruct OK as [[[[A B] C] D] F].
+  split; [lia|]. split; [exact A|]. split; [|split].
+  - intro Hin. apply stopped_iff in Hin. apply zmem_In in Hin. rewrite Hin in B. discriminate.
+  - intros x Hx. rewrite forallb_forall in F. specialize (F x Hx). unfold noone in F.
+    destruct (members (view_of pre) c (fst x)); [reflexivity | discriminate].
+  - rewrite view_of_snoc. unfold vstep. cbn [vstep0].
+    change (queue_of (set_lastfull ?x ?b) c) with (queue_of x c). apply queue_set_same.
+Qed.
+
+Lemma zmem_filter_out c l : zmem c (filter (fun x => negb (x =? c)) l) = false.
+Proof.
+  destruct (zmem c (filter (fun x => negb (x =? c)) l)) eqn:Z0; [|reflexivity].
+  apply zmem_In in Z0. apply filter_In in Z0. destruct Z0 as [_ N]. rewrite Z.eqb_refl in N. discriminate.
+Qed.
+
+(* a loop ends only after Stop(); what is still queued then is never received, and the centre
+   belongs to the driver again *)
+Theorem loop_end_after_stop t pre c post :
+  Holds t -> t = pre ++ VLoopEnd c :: post ->
+  In (VStop c) pre /\ loop_alive (view_of pre) c = true /\
+  queue_of (view_of (pre ++ [VLoopEnd c])) c = [] /\ owner (view_of (pre ++ [VLoopEnd c])) c = 0.
+Proof.
+  intros H E. destruct (Holds_at _ _ _ _ H E) as (_ & OK & _).
+  unfold ok_ev in OK. destruct (dead (view_of pre)); [discriminate|].
+  destruct (lastfull (view_of pre)); [discriminate|]. cbn [negb andb] in OK.
+  apply andb_true_iff in OK. destruct OK as [A B].
+  split; [apply stopped_iff; apply zmem_In; exact B|]. split; [exact A|]. split.
+  - rewrite view_of_snoc. unfold vstep. cbn [vstep0].
+    change (queue_of (set_lastfull ?x ?b) c) with (queue_of x c).
+    change (queue_of (set_alive ?x ?b) c) with (queue_of x c). apply queue_set_same.
+  - unfold owner, loop_alive. rewrite view_of_snoc, vstep_alive, zmem_filter_out, andb_false_r. reflexivity.
+Qed.
+
 (* ================================================================ Part D: the statements of Props.v *)
 Lemma m_not_starved : forall g ops pre n a k qlens post,
   run g ops = pre ++ VGPub n a k qlens :: post ->
@@ -1532,49 +1878,52 @@ Lemma m_once : forall g ops,
   (forall t1 p c n a t2 t3, run g ops = t1 ++ VBegin p c n a :: t2 ++ VEnd p :: t3 ->
      forall i, In i (members (view_of t1) c n) ->
                find_live (view_of (t1 ++ VBegin p c n a :: t2)) (i_l i) <> None ->
-               exists fa, In (VInv p (i_l i) fa) t2) /\
-  (forall t1 p l a1 t2 a2 t3, run g ops <> t1 ++ VInv p l a1 :: t2 ++ VInv p l a2 :: t3).
+               exists fa gr, In (VInv p (i_l i) fa gr) t2) /\
+  (forall t1 p l a1 g1 t2 a2 g2 t3, run g ops <> t1 ++ VInv p l a1 g1 :: t2 ++ VInv p l a2 g2 :: t3).
 Proof.
   intros g ops. split.
   - intros. eapply at_least_once; eauto using run_holds.
-  - intros t1 p l a1 t2 a2 t3 E. eapply at_most_once; [apply run_holds | exact E].
+  - intros t1 p l a1 g1 t2 a2 g2 t3 E. eapply at_most_once; [apply run_holds | exact E].
 Qed.
 
-Lemma m_args : forall g ops t1 p c n a t2 l fa t3,
-  run g ops = t1 ++ VBegin p c n a :: t2 ++ VInv p l fa :: t3 ->
+Lemma m_args : forall g ops t1 p c n a t2 l fa gr t3,
+  run g ops = t1 ++ VBegin p c n a :: t2 ++ VInv p l fa gr :: t3 ->
   exists i, find_live (view_of (t1 ++ VBegin p c n a :: t2)) l = Some i /\ fa = i_bound i ++ a.
 Proof.
-  intros. destruct (inv_in_pub _ _ _ _ _ _ _ _ _ _ (run_holds g ops) H) as [i (A & _ & _ & B)]. eauto.
+  intros. destruct (inv_in_pub _ _ _ _ _ _ _ _ _ _ _ (run_holds g ops) H) as [i (A & _ & _ & B)]. eauto.
 Qed.
 
-Lemma m_names : forall g ops t1 p c n a t2 l fa t3,
-  run g ops = t1 ++ VBegin p c n a :: t2 ++ VInv p l fa :: t3 ->
+Lemma m_names : forall g ops t1 p c n a t2 l fa gr t3,
+  run g ops = t1 ++ VBegin p c n a :: t2 ++ VInv p l fa gr :: t3 ->
   exists i, find_live (view_of (t1 ++ VBegin p c n a :: t2)) l = Some i /\ i_c i = c /\ i_n i = n.
 Proof.
-  intros. destruct (inv_in_pub _ _ _ _ _ _ _ _ _ _ (run_holds g ops) H) as [i (A & B & C & _)]. eauto.
+  intros. destruct (inv_in_pub _ _ _ _ _ _ _ _ _ _ _ (run_holds g ops) H) as [i (A & B & C & _)]. eauto.
 Qed.
 
-Lemma m_inv_open : forall g ops pre p l fa post,
-  run g ops = pre ++ VInv p l fa :: post ->
+Lemma m_inv_open : forall g ops pre p l fa gr post,
+  run g ops = pre ++ VInv p l fa gr :: post ->
   exists f i, aget p (frames (view_of pre)) = Some f /\ find_live (view_of pre) l = Some i /\
               i_c i = f_c f /\ i_n i = f_n f /\ fa = i_bound i ++ f_args f /\ ~ In l (f_seen f).
-Proof. intros. eapply inv_current; eauto using run_holds. Qed.
+Proof.
+  intros. destruct (inv_current _ _ _ _ _ _ _ (run_holds g ops) H) as (f & i & A & B & C & D & E & F & _).
+  exists f, i. auto 7.
+Qed.
 
-Lemma m_unsub : forall g ops t1 c n l t2 p fa t3 gl b,
+Lemma m_unsub : forall g ops t1 c n l t2 p fa gr t3 gl b,
   In (VSub l c n gl b) t1 ->
-  run g ops <> t1 ++ VUnsub c n l :: t2 ++ VInv p l fa :: t3 /\
-  run g ops <> t1 ++ VUnsubCb c n l :: t2 ++ VInv p l fa :: t3.
+  run g ops <> t1 ++ VUnsub c n l :: t2 ++ VInv p l fa gr :: t3 /\
+  run g ops <> t1 ++ VUnsubCb c n l :: t2 ++ VInv p l fa gr :: t3.
 Proof.
   intros. split; intro E; eapply removed_never_again; eauto using run_holds.
 Qed.
 
 Lemma m_clear : forall g ops t1 c t2 t3,
-  (forall l n gl b p fa, In (VSub l c n gl b) t1 ->
-     run g ops <> t1 ++ VClear c :: t2 ++ VInv p l fa :: t3) /\
+  (forall l n gl b p fa gr, In (VSub l c n gl b) t1 ->
+     run g ops <> t1 ++ VClear c :: t2 ++ VInv p l fa gr :: t3) /\
   (forall l n gl b, run g ops <> t1 ++ VClear c :: t2 ++ VSub l c n gl b :: t3).
 Proof.
   intros. split.
-  - intros l n gl b p fa Hs E. eapply removed_never_again; eauto using run_holds.
+  - intros l n gl b p fa gr Hs E. eapply removed_never_again; eauto using run_holds.
   - intros l n gl b E. eapply no_sub_after_clear; eauto using run_holds.
 Qed.
 
@@ -1607,11 +1956,55 @@ Lemma m_monitor : forall t, holds_b t = true <-> Holds t.
 Proof. exact holds_b_spec. Qed.
 
 (* any listener of the snapshot can be the next one visited: the guide covers all map orders *)
-Lemma m_any_order : forall p l todo fa g s,
-  In l todo -> guide s = VInv p l fa :: g ->
+Lemma m_any_order : forall p l todo fa gr g s,
+  In l todo -> guide s = VInv p l fa gr :: g ->
   pick (hint p s) todo = Some (l, remove_first l todo).
 Proof.
-  intros p l todo fa g s Hin Hg. unfold hint. rewrite Hg, Z.eqb_refl. unfold pick.
+  intros p l todo fa gr g s Hin Hg. unfold hint. rewrite Hg, Z.eqb_refl. unfold pick.
   destruct todo as [|x r]; [contradiction|].
   apply zmem_In in Hin. rewrite Hin. reflexivity.
 Qed.
+
+(* ---- run services *)
+Lemma m_owner : forall g ops pre p l fa gr post,
+  run g ops = pre ++ VInv p l fa gr :: post ->
+  exists i, find_live (view_of pre) l = Some i /\ gr = owner (view_of pre) (i_c i).
+Proof. intros. eapply inv_owner; eauto using run_holds. Qed.
+
+Lemma m_owner_char : forall t c,
+  let P := is_svc c = true /\ exists t1 t2, t = t1 ++ VStart c :: t2 /\ ~ In (VLoopEnd c) t2 in
+  (owner (view_of t) c = c /\ P) \/ (owner (view_of t) c = 0 /\ ~ P).
+Proof. exact owner_char. Qed.
+
+Lemma m_stop : forall g ops t1 c t2 t3,
+  (forall l n gl b p fa gr, In (VSub l c n gl b) t1 ->
+     run g ops <> t1 ++ VStop c :: t2 ++ VInv p l fa gr :: t3) /\
+  (forall e, run g ops = t1 ++ VStop c :: t2 ++ e :: t3 ->
+     match e with
+     | VDeq c' _ _ | VSkip c' _ | VStop c' | VStart c' | VSub _ c' _ _ _ => c' <> c
+     | _ => True
+     end).
+Proof.
+  intros. split.
+  - intros l n gl b p fa gr Hs E. eapply removed_never_again; eauto 6 using run_holds.
+  - intros e E. eapply stop_final; eauto using run_holds.
+Qed.
+
+Lemma m_deq_by_loop : forall g ops pre c n a post,
+  run g ops = pre ++ VDeq c n a :: post -> is_svc c = true ->
+  loop_alive (view_of pre) c = true /\ ~ In (VStop c) pre.
+Proof. intros. eapply deq_by_loop; eauto using run_holds. Qed.
+
+Lemma m_skip : forall g ops pre c k post,
+  run g ops = pre ++ VSkip c k :: post ->
+  0 < k <= qlen (view_of pre) c /\ loop_alive (view_of pre) c = true /\ ~ In (VStop c) pre /\
+  (forall x, In x (firstn (Z.to_nat k) (queue_of (view_of pre) c)) ->
+             members (view_of pre) c (fst x) = []) /\
+  queue_of (view_of (pre ++ [VSkip c k])) c = skipn (Z.to_nat k) (queue_of (view_of pre) c).
+Proof. intros. eapply skip_noone; eauto using run_holds. Qed.
+
+Lemma m_loop_end : forall g ops pre c post,
+  run g ops = pre ++ VLoopEnd c :: post ->
+  In (VStop c) pre /\ loop_alive (view_of pre) c = true /\
+  queue_of (view_of (pre ++ [VLoopEnd c])) c = [] /\ owner (view_of (pre ++ [VLoopEnd c])) c = 0.
+Proof. intros. eapply loop_end_after_stop; eauto using run_holds. Qed.
